@@ -1,8 +1,46 @@
-(* C05 — placeholder theorems (totality of both models); the property itself is decided on every
-   run by the checks described in DESIGN.md.  To be replaced by the real statement. *)
+(* C05 — every decoded value re-encodes at every protocol and decodes back to itself. *)
 From Coq Require Import List ZArith NArith Bool.
-From OgRek Require Import Base Value Reader Decoder DecoderFacts Encoder EncoderFacts.
+From Coq.Strings Require Import Byte.
+From OgRek Require Import Base Value Reader Decoder DecoderFacts Encoder EncoderFacts Norm TypingFacts RoundTrip.
+
+(* STATUS.  C05_redecode_partial is the property for every result without heap objects (maps,
+   Dicts) and PersistentLoad objects:  whatever bytes inp Decode succeeded on - from any decoder
+   state that satisfies the C16 typing invariant, under any configuration - the result x, seen by
+   the encoder as reify x, encodes without error at protocol c and every decoder with the same
+   StrictUnicode setting reads it back with the same content (erase: content without slice / big.Int
+   identities), leaving following bytes untouched.  fits_proto c t lists, per leaf, what protocol c
+   must offer for the theorem to apply; what it excludes is exactly (a) the three documented
+   limitations, and (b) forms the proof does not cover yet: protocol-0 text forms of strings and
+   floats, Bytes below protocol 3, []byte below protocol 5, payloads of 2^32 bytes or more.
+   Outside the fragment the property is decided on every run by the decode -> encode -> decode
+   chain on the implementation, compared with both models. *)
+Theorem C05_redecode_partial : forall cfg c st0 inp x st1 rest0 t st rest,
+  state_ok cfg st0 -> load_ok cfg ->
+  decode cfg st0 inp = ((Ok x, st1), rest0) ->
+  c_strict cfg = e_strict c -> (0 <= e_proto c <= 5)%Z ->
+  erase x = Some t -> fits_proto c t = true ->
+  exists r, reify x = Some r /\
+    snd (run_w (encode c r) None) = EOk /\
+    exists x' st', decode (dcfg_of c (c_pydict cfg)) st (output (encode c r) ++ rest) = ((Ok x', st'), rest) /\
+                   erase x' = erase x.
+Proof. exact redecode. Qed.
+Print Assumptions C05_redecode_partial.
+
 Theorem C05_partial_totality :
   (forall cfg st inp, fst (fst (decode cfg st inp)) <> Panic /\ fst (fst (decode cfg st inp)) <> OutOfFuel)
   /\ (forall c v fa, snd (run_w (encode c v) fa) <> EPanic).
 Proof. split; [exact decode_safe|exact encode_no_panic]. Qed.
+Print Assumptions C05_partial_totality.
+
+(* hypotheses are satisfiable: a hand-assembled protocol-2 pickle of ([1, 2L, u'a'], (None, True)) *)
+Definition ex_inp : bytes :=
+  (x80 :: x02 :: x5d :: x28 :: x4b :: x01 :: x8a :: x01 :: x02 :: x58 :: x01 :: x00 :: x00 :: x00 :: x61 ::
+   x65 :: x4e :: x88 :: x86 :: x86 :: x2e :: nil).
+Definition ex_cfg := Build_dconfig false false None.
+Definition ex_c := Build_econfig 4 false (fun _ => false) (fun _ => nil).
+Example C05_nonvacuous :
+  match decode ex_cfg init_state ex_inp with
+  | ((Ok x, _), nil) => match erase x with Some t => fits_proto ex_c t | None => false end
+  | _ => false
+  end = true.
+Proof. vm_compute. reflexivity. Qed.
